@@ -295,13 +295,14 @@ impl FlagConstructor for FlagCtor {
     }
 }
 
-// @disabled-check (CBMC exhausts 30-40 GB in propositional reduction on the BoxEntry bridge, see DESIGN.md C15): C15 quick timeout=2400 mem=30
+// @check C15 quick timeout=2400 mem=30
 // @encodes entry::boxed::{BoxEntry::new, DynEntry, EntryWriterToDyn/FromDyn, ValueToDyn/FromDyn, ValueWriterToDyn/FromDyn}, BoxEntry::sample_group
 // @bounds one metric item with an EMPTY distribution and no dimension (other shapes: c15::boxed_metric::*, other item kinds: thorough box_entry_is_transparent_other_items); name, unit, sample group symbolic; originally: a timestamp / config / string / metric (0-2 observations of any kind with symbolic payload bits, unit in {None,Count,Percent}, 0-1 dimension pair) / validation error / empty value; sample group present or not
 // @oracle log(BoxEntry(e)) == log(e) event by event (symbolic index): kind, name, timestamp, text, observations bit-for-bit, unit, dimensions, flags; sample_group identical
 // @outside entries with more than 2 items / 2 observations / 1 dimension per value (SmallVec spill paths)
 #[kani::proof]
 #[kani::unwind(4)]
+#[kani::stub(smallvec::SmallVec::try_grow, crate::stubs::smallvec_try_grow)]
 pub fn box_entry_is_transparent() {
     box_metric(0, false)
 }
@@ -310,13 +311,14 @@ macro_rules! box_metric_harness {
     ($($name:ident: $n:expr, $dim:expr;)*) => { $(
         #[kani::proof]
         #[kani::unwind(4)]
+        #[kani::stub(smallvec::SmallVec::try_grow, crate::stubs::smallvec_try_grow)]
         pub fn $name() {
             box_metric($n, $dim)
         }
     )* };
 }
 
-// @disabled-check (CBMC exhausts 30-40 GB in propositional reduction on the BoxEntry bridge, see DESIGN.md C15): C15 quick filter=c15::boxed_metric:: timeout=2400 mem=30
+// @check C15 quick filter=c15::boxed_metric:: timeout=2400 mem=30
 // @encodes entry::boxed::* (same as box_entry_is_transparent)
 // @bounds one metric item with a concrete number of observations (0, 1, 2) and 0 or 1 dimension pair per harness; observation kinds, payload bits, unit, name and sample group symbolic (a solver-chosen observation count makes the SmallVec bridge exhaust 30 GB)
 // @oracle same as box_entry_is_transparent
@@ -386,12 +388,13 @@ impl Entry for OneMetric {
     }
 }
 
-// @disabled-check (CBMC exhausts 30-40 GB in propositional reduction on the BoxEntry bridge, see DESIGN.md C15): C15 thorough timeout=7200 mem=45
+// @check C15 thorough timeout=7200 mem=45
 // @encodes entry::boxed::* (same as box_entry_is_transparent)
 // @bounds scripted entry of one item of ANY kind (timestamp / config / string / metric / validation error / empty value)
 // @oracle same
 #[kani::proof]
 #[kani::unwind(6)]
+#[kani::stub(smallvec::SmallVec::try_grow, crate::stubs::smallvec_try_grow)]
 pub fn box_entry_is_transparent_other_items() {
     let e = any_entry_upto(1);
     box_entry_check(e)
